@@ -180,7 +180,7 @@ Job gen_ini(Src &s, Ctx &c, bool *nontriv) {
 
 // =====================================================================================  Apache style
 enum { T_STR = 0, T_INT = 1, T_FLOAT = 2, T_BOOL = 3 };
-struct OptDef { std::string name; int ntake; int argtype[5]; int deftype; bool is_section; uint64_t sectionid, sections; int cbkind; };   // cbkind 0 record, 1 NULL, 2 error
+struct OptDef { std::string name; int ntake; int argtype[5]; int deftype; bool is_section; uint64_t sectionid, sections; int cbkind; bool late = false; };   // cbkind 0 record, 1 NULL, 2 error, 3 loader (its callback registers the 'late' options)
 struct Rec { int otype; uint64_t section, sections; int level; std::vector<std::string> argv; std::vector<std::string> parents; };
 thread_local std::vector<Rec> g_rec;
 bool g_cb_error_armed = false;
@@ -209,6 +209,7 @@ struct ApGen {
     int ordinal = 0;
     bool injected = false; int error_line = 0; bool stop = false;
     int nested = 0, escapes = 0;
+    bool has_loader = false, loaded = false; int late_used = 0;
     ApGen(Src &s_, Ctx &c_) : s(s_), c(c_) {}
 
     std::string randcase(const std::string &n) { if (!(flags & QAC_CASEINSENSITIVE)) return n; std::string r = n; for (auto &ch : r) if (s.boolean()) ch = (char)(isupper((unsigned char)ch) ? tolower(ch) : toupper(ch)); return r; }
@@ -226,6 +227,13 @@ struct ApGen {
             o.sections = sc == 0 ? 0 : sc == 1 ? 1 : (2ull << s.range(0, nsec - 1)) | (s.boolean() ? 1 : 0);
             o.cbkind = (int)s.pick({8, 1});
             opts.push_back(o);
+        }
+        if (s.chance(1, 4)) {
+            // the "LoadModule" pattern: a directive whose callback registers further options while the file is being parsed
+            OptDef l{}; l.name = "Load"; l.ntake = 0; for (int j = 0; j < 5; j++) l.argtype[j] = -1; l.deftype = 0; l.is_section = false; l.sectionid = 0; l.sections = 0; l.cbkind = 3; opts.push_back(l);
+            int nlate = (int)s.range(1, 2);
+            for (int i = 0; i < nlate; i++) { OptDef o{}; o.name = "Late" + std::to_string(i); o.ntake = (int)s.range(0, 2); for (int j = 0; j < 5; j++) o.argtype[j] = -1; o.deftype = (int)s.pick({3, 1, 1}); o.is_section = false; o.sectionid = 0; o.sections = 0; o.cbkind = 0; o.late = true; opts.push_back(o); }
+            has_loader = true;
         }
         // sections may nest only where allowed
         for (int i = 0; i < nsec; i++) opts[(size_t)i].sections = s.chance(1, 2) ? 0 : (1 | (i > 0 ? (2ull << (i - 1)) : 0));
@@ -281,7 +289,8 @@ struct ApGen {
         int n = (int)s.range(0, budget);
         for (int i = 0; i < n && !stop && !s.exhausted(); i++) {
             std::vector<size_t> cand;
-            for (size_t k = 0; k < opts.size(); k++) if (allowed(opts[k], sc) && !(opts[k].is_section && depth >= 3)) cand.push_back(k);
+            for (size_t k = 0; k < opts.size(); k++) if (allowed(opts[k], sc) && !(opts[k].is_section && depth >= 3) && !(opts[k].late && !loaded)) cand.push_back(k);
+            if (has_loader && loaded && s.chance(1, 3)) { std::vector<size_t> lc; for (size_t k : cand) if (opts[k].late) lc.push_back(k); if (!lc.empty()) cand = lc; }   // make use of what was just registered
             bool do_inject = inject != 0 && !injected && ordinal >= inject_at;
             ordinal++;
             // unknown directive (valid only with a default handler or QAC_IGNOREUNKNOWN)
@@ -353,6 +362,8 @@ struct ApGen {
                 if (quote_bad) { injected = true; error_line = lineno; stop = true; return; }
                 if (do_inject && inject == 3 && !allowed(o, sc)) { injected = true; error_line = lineno; stop = true; return; }
                 if (count_bad || type_bad) { injected = true; error_line = lineno; stop = true; return; }
+                if (o.cbkind == 3) loaded = true;
+                if (o.late) late_used++;
                 bool has_cb = o.cbkind != 1 || defh;
                 if (has_cb) { Rec r; r.otype = QAC_OTYPE_OPTION; r.section = sc.section; r.sections = sc.sections; r.level = sc.level; r.argv.push_back(nm); for (auto &a : norm) r.argv.push_back(a); r.parents = sc.parents; expect.push_back(r); }
                 if (do_inject && inject == 9 && o.cbkind == 0) { g_cb_error_armed = true; injected = true; error_line = lineno; stop = true; return; }
@@ -362,11 +373,19 @@ struct ApGen {
     }
 };
 
+struct UserData { int remaining; qaconf_t *q; qaconf_option_t *extra; bool loaded; };
 char *cb_maybe_fail(qaconf_cbdata_t *d, void *ud) {
     cb_record(d, ud);
-    int *remaining = (int *)ud;
-    if (remaining && *remaining >= 0) { if (*remaining == 0) { *remaining = -1; return strdup("handler refused"); } (*remaining)--; }
+    UserData *u = (UserData *)ud;
+    if (u && u->remaining >= 0) { if (u->remaining == 0) { u->remaining = -1; return strdup("handler refused"); } u->remaining--; }
     return nullptr;
+}
+// the loader directive: registers the late options with the parser that is in the middle of parse()
+char *cb_loader(qaconf_cbdata_t *d, void *ud) {
+    char *r = cb_maybe_fail(d, ud);
+    UserData *u = (UserData *)ud;
+    if (!r && u && u->extra && !u->loaded && d->otype == QAC_OTYPE_OPTION) { u->q->addoptions(u->q, u->extra); u->loaded = true; }
+    return r;
 }
 
 Job gen_apache(Src &s, Ctx &c, bool *nontriv) {
@@ -392,6 +411,7 @@ Job gen_apache(Src &s, Ctx &c, bool *nontriv) {
     *nontriv = (g.nested > 0 && g.escapes > 0) || expect_error;
     c.tag(expect_error ? strf("apache_invalid_kind_%d", g.inject).c_str() : "apache_valid");
     if (g.nested) c.tag("apache_with_nested_section");
+    if (g.late_used) c.tag("apache_with_options_registered_during_parse");
     // everything the run needs, by value
     struct Plan { std::vector<OptDef> opts; std::vector<uint32_t> take; int flags; bool defh; std::string doc, pre, path; std::vector<Rec> expect; int expect_count, fail_after, inject, error_line, lineno; bool expect_error, reload; };
     auto pl = std::make_shared<Plan>();
@@ -400,17 +420,17 @@ Job gen_apache(Src &s, Ctx &c, bool *nontriv) {
     pl->inject = g.inject; pl->error_line = g.error_line; pl->lineno = g.lineno; pl->expect_error = expect_error; pl->reload = reload;
     return [pl](Ctx &c) {
         const Plan &P = *pl;
-        std::vector<qaconf_option_t> tbl;
-        for (size_t k = 0; k < P.opts.size(); k++) { const OptDef &o = P.opts[k]; qaconf_option_t q; q.name = (char *)o.name.c_str(); q.take = P.take[k]; q.cb = o.cbkind == 1 ? nullptr : cb_maybe_fail; q.sectionid = o.sectionid; q.sections = o.sections; tbl.push_back(q); }
-        qaconf_option_t end = QAC_OPTION_END; tbl.push_back(end);
+        std::vector<qaconf_option_t> tbl, extra;
+        for (size_t k = 0; k < P.opts.size(); k++) { const OptDef &o = P.opts[k]; qaconf_option_t q; q.name = (char *)o.name.c_str(); q.take = P.take[k]; q.cb = o.cbkind == 1 ? nullptr : o.cbkind == 3 ? cb_loader : cb_maybe_fail; q.sectionid = o.sectionid; q.sections = o.sections; (o.late ? extra : tbl).push_back(q); }
+        qaconf_option_t end = QAC_OPTION_END; tbl.push_back(end); extra.push_back(end);
         write_file(P.path, P.doc);
         g_rec.clear();
         qaconf_t *q = qaconf();
         if (!q) c.fail(FUNC, "conf:qaconf-ctor", "qaconf() returned NULL");
         struct G { qaconf_t *q; ~G() { q->free(q); } } gg{q};
-        int cnt_remaining = P.fail_after;
+        UserData ud{P.fail_after, q, extra.size() > 1 ? extra.data() : nullptr, false};
         q->addoptions(q, tbl.data());
-        q->setuserdata(q, &cnt_remaining);
+        q->setuserdata(q, &ud);
         if (P.defh) q->setdefhandler(q, cb_maybe_fail);
         if (P.reload) {
             write_file(P.path, P.pre);
